@@ -398,6 +398,14 @@ pub fn generate(seed: u64, i: u64, tier: u32, methods: &[String]) -> Scenario {
         } else {
             continue;
         }
+        // a few faults aim at rename/unlink/ftruncate/fsync calls: the shipped tool makes none (the
+        // fault is then dropped at resolution), changed code with an "atomic save" does
+        if r.chance(8) {
+            let kind = *r.pick(&["crash", "crash", "EIO", "ENOSPC", "EACCES"]);
+            let at = match r.range(0, 3) { 0 => 0, 1 => 1000, _ => r.range(0, 1000) as u32 };
+            fault_specs.push(FaultSpec { step, target: "meta".into(), op: "meta".into(), at, abs: None, kind: kind.into(), arg: 0 });
+            continue;
+        }
         let target = r.pick(&targets).to_string();
         let (op, kind, arg): (&str, &str, i64) = if target == "input" {
             match r.range(0, 9) {
@@ -410,7 +418,7 @@ pub fn generate(seed: u64, i: u64, tier: u32, methods: &[String]) -> Scenario {
             }
         } else if target == "stdout" {
             match r.range(0, 9) {
-                0..=2 => ("write", *r.pick(&["ENOSPC", "EIO", "EPIPE"]), 0),
+                0..=2 => ("write", *r.pick(&["ENOSPC", "EIO", "EPIPE"]), if r.chance(60) { 1 } else { 0 }),
                 3..=4 => ("write", "EINTR", 0),
                 5..=6 => ("write", "short", r.range(1, 20)),
                 7..=8 => ("write", "crash", 0),
@@ -418,7 +426,7 @@ pub fn generate(seed: u64, i: u64, tier: u32, methods: &[String]) -> Scenario {
             }
         } else {
             match r.range(0, 19) {
-                0..=4 => ("write", *r.pick(&["ENOSPC", "EIO", "EDQUOT"]), 0),
+                0..=4 => ("write", *r.pick(&["ENOSPC", "EIO", "EDQUOT"]), if r.chance(60) { 1 } else { 0 }),
                 5..=7 => ("write", "EINTR", 0),
                 8..=10 => ("write", "short", r.range(1, 20)),
                 11..=14 => ("write", "crash", 0),
